@@ -1605,6 +1605,15 @@ func (l *Lowerer) intBinop(op token.Token, a, b *Term, rt types.Type, node ast.N
 				return App("mod", "Int", b, IntPow2(k))
 			}
 		}
+		// single-bit test: x & 2^k == 2^k * bit_k(x) (two's complement, floor div/mod)
+		for _, pr := range [][2]*Term{{a, b}, {b, a}} {
+			if m, ok := litInt(pr[1]); ok && m.Sign() > 0 && m.BitLen() <= 63 {
+				if new(big.Int).And(m, new(big.Int).Sub(m, big.NewInt(1))).Sign() == 0 {
+					k := m.BitLen() - 1
+					return App("*", "Int", IntPow2(k), App("mod", "Int", App("div", "Int", pr[0], IntPow2(k)), IntLit(2)))
+				}
+			}
+		}
 	case token.SHL:
 		if m, ok := litInt(b); ok && m.IsInt64() && m.Int64() < 64 {
 			return l.wrap(App("*", "Int", a, IntPow2(int(m.Int64()))), rt)
